@@ -6,6 +6,7 @@ import (
 	"encoding/json"
 	"flag"
 	"fmt"
+	"golang.org/x/tools/go/ssa"
 	"os"
 	"path/filepath"
 	"sort"
@@ -117,6 +118,7 @@ func run(def *propertyDef, id, repo, verif, tier string, seed int, list, noEvide
 	report.SortObligations(obs)
 	report.DedupKeys(obs)
 	obs, stale := report.Resolve(id, obs, ff, ex)
+	obs, stale = movedJustifications(p, obs, stale, ex)
 
 	// instance floors (anti-vacuity)
 	perRule := map[string]int{}
@@ -253,3 +255,114 @@ func run(def *propertyDef, id, repo, verif, tier string, seed int, list, noEvide
 }
 
 var _ = json.Marshal
+
+// movedJustifications: a justified construct that moved, unchanged, into a helper extracted from the justified
+// function keeps its justification. Conditions: the violation sits in a function the reference snapshot does not
+// have (a new helper); an entry of the same rule with the same construct term is stale; the function named by
+// that entry calls the new helper (statically, up to three levels).
+func movedJustifications(p *prog.Program, obs []report.Obligation, stale []string, ex *report.Expectations) ([]report.Obligation, []string) {
+	term := func(key string) (string, string) {
+		i := strings.Index(key, " :: ")
+		if i < 0 {
+			return "", key
+		}
+		t := key[i+4:]
+		if j := strings.LastIndex(t, " #"); j >= 0 {
+			if _, err := strconv.Atoi(t[j+2:]); err == nil {
+				t = t[:j]
+			}
+		}
+		return key[:i], t
+	}
+	// the construct without its base operand (which becomes a parameter when the code moves into a helper)
+	shape := func(t string) string {
+		i := strings.Index(t, "(")
+		if i < 0 || !strings.HasSuffix(t, ")") {
+			return t
+		}
+		depth, j := 0, i+1
+		for ; j < len(t)-1; j++ {
+			switch t[j] {
+			case '(', '[', '{':
+				depth++
+			case ')', ']', '}':
+				depth--
+			}
+			if t[j] == ',' && depth == 0 {
+				break
+			}
+		}
+		return t[:i+1] + "_" + t[j:]
+	}
+	staleSet := map[string]bool{}
+	for _, s := range stale {
+		staleSet[s] = true
+	}
+	reaches := func(from, to *ssa.Function) bool {
+		seen := map[*ssa.Function]bool{}
+		var walk func(f *ssa.Function, d int) bool
+		walk = func(f *ssa.Function, d int) bool {
+			if f == nil || seen[f] || d == 0 {
+				return false
+			}
+			seen[f] = true
+			for _, b := range f.Blocks {
+				for _, in := range b.Instrs {
+					if ci, ok := in.(ssa.CallInstruction); ok {
+						cal := ci.Common().StaticCallee()
+						if cal == nil {
+							continue
+						}
+						if cal == to || walk(cal, d-1) {
+							return true
+						}
+					}
+				}
+			}
+			for _, af := range f.AnonFuncs {
+				if walk(af, d) {
+					return true
+				}
+			}
+			return false
+		}
+		return walk(from, 3)
+	}
+	for i := range obs {
+		o := &obs[i]
+		if o.Status != report.Violation {
+			continue
+		}
+		gid, t := term(o.Key)
+		g := p.Func(gid)
+		if g == nil || !p.IsNewFunc(g) {
+			continue
+		}
+		for j := range ex.Justified {
+			e := &ex.Justified[j]
+			if e.Rule != o.Rule {
+				continue
+			}
+			fid, et := term(e.Key)
+			msg := "justified entry matches no undischarged obligation: " + e.Rule + " " + e.Key
+			if (et != t && shape(et) != shape(t)) || !staleSet[msg] {
+				continue
+			}
+			f := p.Func(fid)
+			if f == nil || !reaches(f, g) {
+				continue
+			}
+			o.Status = report.Justified
+			o.Why = strings.TrimSpace(o.Why + " | justified (construct moved from " + fid + " into the new helper " + gid + "): " + e.Reason)
+			delete(staleSet, msg)
+			break
+		}
+	}
+	var rest []string
+	for _, s := range stale {
+		if staleSet[s] {
+			rest = append(rest, s)
+		}
+	}
+	return obs, rest
+}
